@@ -94,10 +94,8 @@ def itemLens : Nat → TplItem → List Char → List Nat
       (if "true".toList.isPrefixOf s then [4] else []) ++ (if "false".toList.isPrefixOf s then [5] else [])
     | .lit l => if l.toList.isPrefixOf s then [l.length] else []
     | .oneOf alts =>
-      -- `regex_expr` drops alternatives whose own expression is empty (an empty string constant);
-      -- if nothing is left the group is `()` and matches the empty string
-      let kept := alts.filter (fun a => match a with | .lit "" => false | _ => true)
-      if kept.isEmpty then [0] else altLens fuel kept s
+      -- an empty string constant is an alternative like any other (`(|(a))`, fix D80); `()` matches the empty string
+      if alts.isEmpty then [0] else altLens fuel alts s
 def altLens : Nat → List TplItem → List Char → List Nat
   | 0, _, _ => []
   | _, [], _ => []
